@@ -1,5 +1,771 @@
-//! stream `epo` (stub; replaced by its builder)
-pub fn generate(_seed: u64, _cases: usize, _out: &mut Vec<String>) {}
-pub fn run(_toks: &[&str]) -> String {
-    "bad-op".to_string()
+//! Stream `epo` — compressed epoch blocks and the epoch store of the tiered storage
+//! (`crates/grafeo-core/src/storage/epoch_store.rs`; gated behind the cargo feature `tiered-storage`,
+//! so the source file itself is included here via `#[path]`, see below).
+//!
+//! Every op line is self-contained. Formats:
+//!   record list  `-` | rec{,rec}    rec = `<key>:<f1>.<f2>.….<f8>`
+//!       node fields: id.epoch.props_offset.label_count._reserved.props_count.flags._padding
+//!       edge fields: id.src.dst.type_id.props_offset.props_count.flags.epoch
+//!   `epo block <epoch> <nodes> <edges> <q>{,<q>}`   CompressedEpochBlock::from_records, then queries:
+//!       `n<id>` get_node_by_id   `e<id>` get_edge_by_id   `N<off>:<len>` get_node   `E<off>:<len>` get_edge
+//!       `i<k>` get_node at the k-th returned node index entry   `j<k>` same for edges
+//!       `mn<id>` / `me<id>` zone_map().might_contain_node / _edge
+//!       `c` counts   `h` header   `x` the returned index entries
+//!   `epo enc <n|e> <f1.….f8>`   bincode bytes of one record and their decoding (same config as the code)
+//!   `epo dec <n|e> <hex>`       decode_from_slice of arbitrary bytes
+//!   `epo store <op>{/<op>}`     one EpochStore history:
+//!       `F<epoch>|<nodes>|<edges>` freeze_epoch   `G<min>` gc
+//!       `n<epoch>:<id>` `e<epoch>:<id>` get_*_by_id   `N<epoch>:<off>:<len>` `E…` get_*
+//!       `c<epoch>` contains_epoch   `b<epoch>` get_block   `k` epoch_count   `t` total_size   `s` stats
+#![allow(unused)]
+use crate::util::*;
+use grafeo_common::types::{EdgeId, EpochId, NodeId};
+use grafeo_core::graph::lpg::{EdgeFlags, EdgeRecord, NodeFlags, NodeRecord};
+
+// `storage::epoch_store` is gated behind grafeo-core's cargo feature `tiered-storage`, which the
+// harness must not enable (it switches ~107 cfg sites of the store every other stream tests).
+// The REAL source file is therefore compiled into this crate via `#[path]`; the two shim modules
+// below satisfy its `use super::codec::CompressionCodec` and `use crate::graph::lpg::{..}`
+// (the latter needs the one-line re-export `use epo::graph;` in main.rs).
+pub mod graph {
+    pub mod lpg {
+        pub use grafeo_core::graph::lpg::{EdgeRecord, NodeRecord};
+    }
+}
+mod tiered {
+    pub mod codec {
+        pub use grafeo_core::storage::codec::CompressionCodec;
+    }
+    #[path = "/repo/crates/grafeo-core/src/storage/epoch_store.rs"]
+    pub mod epoch_store;
+}
+use tiered::epoch_store::{CompressedEpochBlock, CompressionType, EpochStore, IndexEntry};
+
+// ───────────────────────── parsing ─────────────────────────
+
+fn p_fields(s: &str) -> Option<Vec<u64>> {
+    s.split('.').map(|t| if t.starts_with('+') { None } else { t.parse().ok() }).collect()
+}
+
+fn node_of(f: &[u64]) -> Option<NodeRecord> {
+    if f.len() != 8 {
+        return None;
+    }
+    Some(NodeRecord {
+        id: NodeId::new(f[0]),
+        epoch: EpochId::new(f[1]),
+        props_offset: u32::try_from(f[2]).ok()?,
+        label_count: u16::try_from(f[3]).ok()?,
+        _reserved: u16::try_from(f[4]).ok()?,
+        props_count: u16::try_from(f[5]).ok()?,
+        flags: NodeFlags(u16::try_from(f[6]).ok()?),
+        _padding: u32::try_from(f[7]).ok()?,
+    })
+}
+
+fn edge_of(f: &[u64]) -> Option<EdgeRecord> {
+    if f.len() != 8 {
+        return None;
+    }
+    Some(EdgeRecord {
+        id: EdgeId::new(f[0]),
+        src: NodeId::new(f[1]),
+        dst: NodeId::new(f[2]),
+        type_id: u32::try_from(f[3]).ok()?,
+        props_offset: u32::try_from(f[4]).ok()?,
+        props_count: u16::try_from(f[5]).ok()?,
+        flags: EdgeFlags(u16::try_from(f[6]).ok()?),
+        epoch: EpochId::new(f[7]),
+    })
+}
+
+fn p_u64(s: &str) -> Option<u64> {
+    if s.starts_with('+') { None } else { s.parse().ok() }
+}
+fn p_u32(s: &str) -> Option<u32> {
+    if s.starts_with('+') { None } else { s.parse().ok() }
+}
+fn p_u16(s: &str) -> Option<u16> {
+    if s.starts_with('+') { None } else { s.parse().ok() }
+}
+
+fn p_nodes(s: &str) -> Option<Vec<(u64, NodeRecord)>> {
+    if s == "-" {
+        return Some(vec![]);
+    }
+    s.split(',')
+        .map(|r| {
+            let (k, fs) = r.split_once(':')?;
+            if fs.contains(':') {
+                return None;
+            }
+            Some((p_u64(k)?, node_of(&p_fields(fs)?)?))
+        })
+        .collect()
+}
+
+fn p_edges(s: &str) -> Option<Vec<(u64, EdgeRecord)>> {
+    if s == "-" {
+        return Some(vec![]);
+    }
+    s.split(',')
+        .map(|r| {
+            let (k, fs) = r.split_once(':')?;
+            if fs.contains(':') {
+                return None;
+            }
+            Some((p_u64(k)?, edge_of(&p_fields(fs)?)?))
+        })
+        .collect()
+}
+
+// ───────────────────────── printing ─────────────────────────
+
+fn node_s(r: Option<NodeRecord>) -> String {
+    match r {
+        None => "none".into(),
+        Some(r) => format!(
+            "{}.{}.{}.{}.{}.{}.{}.{}",
+            r.id.as_u64(),
+            r.epoch.as_u64(),
+            r.props_offset,
+            r.label_count,
+            r._reserved,
+            r.props_count,
+            r.flags.0,
+            r._padding
+        ),
+    }
+}
+
+fn edge_s(r: Option<EdgeRecord>) -> String {
+    match r {
+        None => "none".into(),
+        Some(r) => format!(
+            "{}.{}.{}.{}.{}.{}.{}.{}",
+            r.id.as_u64(),
+            r.src.as_u64(),
+            r.dst.as_u64(),
+            r.type_id,
+            r.props_offset,
+            r.props_count,
+            r.flags.0,
+            r.epoch.as_u64()
+        ),
+    }
+}
+
+fn entry_s(e: &IndexEntry) -> String {
+    format!("{}@{}+{}", e.entity_id, e.offset, e.length)
+}
+fn entries_s(es: &[IndexEntry]) -> String {
+    if es.is_empty() { "-".into() } else { es.iter().map(entry_s).collect::<Vec<_>>().join(",") }
+}
+fn b(x: bool) -> &'static str {
+    if x { "1" } else { "0" }
+}
+fn ctype(c: CompressionType) -> u8 {
+    match c {
+        CompressionType::None => 0,
+        CompressionType::Dictionary => 1,
+        CompressionType::Delta => 2,
+        CompressionType::Combined => 3,
+    }
+}
+
+// ───────────────────────── run ─────────────────────────
+
+fn block_query(blk: &CompressedEpochBlock, ni: &[IndexEntry], ei: &[IndexEntry], q: &str) -> Option<String> {
+    let c = q.chars().next()?;
+    Some(match c {
+        'n' => node_s(blk.get_node_by_id(p_u64(&q[1..])?)),
+        'e' => edge_s(blk.get_edge_by_id(p_u64(&q[1..])?)),
+        'N' | 'E' => {
+            let (o, l) = q[1..].split_once(':')?;
+            let (o, l) = (p_u32(o)?, p_u16(l)?);
+            if c == 'N' { node_s(blk.get_node(o, l)) } else { edge_s(blk.get_edge(o, l)) }
+        }
+        'i' | 'j' => {
+            let t = &q[1..];
+            if t.starts_with('+') {
+                return None;
+            }
+            let k: u128 = t.parse().ok()?;
+            let idx = if c == 'i' { ni } else { ei };
+            if k >= idx.len() as u128 {
+                "oob".into()
+            } else {
+                let en = &idx[k as usize];
+                let r = if c == 'i' { node_s(blk.get_node(en.offset, en.length)) } else { edge_s(blk.get_edge(en.offset, en.length)) };
+                format!("{}={}", entry_s(en), r)
+            }
+        }
+        'm' => {
+            let id = p_u64(q.get(2..)?)?;
+            match q.as_bytes().get(1)? {
+                b'n' => b(blk.zone_map().might_contain_node(id)).into(),
+                b'e' => b(blk.zone_map().might_contain_edge(id)).into(),
+                _ => return None,
+            }
+        }
+        'c' if q == "c" => {
+            format!("{},{},{},{}", blk.node_count(), blk.edge_count(), blk.zone_map().node_count, blk.zone_map().edge_count)
+        }
+        'h' if q == "h" => {
+            let h = blk.header();
+            let z = &h.zone_map;
+            format!(
+                "{},{},{},{},{},{},{},{},{},{},{},{},{}",
+                blk.epoch().as_u64(),
+                ctype(h.compression_type),
+                z.min_node_id,
+                z.max_node_id,
+                z.min_edge_id,
+                z.max_edge_id,
+                z.min_epoch,
+                z.max_epoch,
+                h.node_data_size,
+                h.edge_data_size,
+                h.node_uncompressed_size,
+                h.edge_uncompressed_size,
+                blk.compressed_size()
+            )
+        }
+        'x' if q == "x" => format!("{}/{}", entries_s(ni), entries_s(ei)),
+        _ => return None,
+    })
+}
+
+fn store_op(st: &EpochStore, q: &str) -> Option<String> {
+    let c = q.chars().next()?;
+    Some(match c {
+        'F' => {
+            let parts: Vec<&str> = q[1..].split('|').collect();
+            if parts.len() != 3 {
+                return None;
+            }
+            let e = p_u64(parts[0])?;
+            let ns = p_nodes(parts[1])?;
+            let es = p_edges(parts[2])?;
+            let (ni, ei) = st.freeze_epoch(EpochId::new(e), ns, es);
+            format!("F:{}:{}", ni.len(), ei.len())
+        }
+        'G' => format!("G:{}", st.gc(EpochId::new(p_u64(&q[1..])?))),
+        'n' | 'e' => {
+            let parts: Vec<&str> = q[1..].split(':').collect();
+            if parts.len() != 2 {
+                return None;
+            }
+            let (e, id) = (EpochId::new(p_u64(parts[0])?), p_u64(parts[1])?);
+            if c == 'n' { node_s(st.get_node_by_id(e, id)) } else { edge_s(st.get_edge_by_id(e, id)) }
+        }
+        'N' | 'E' => {
+            let parts: Vec<&str> = q[1..].split(':').collect();
+            if parts.len() != 3 {
+                return None;
+            }
+            let (e, o, l) = (EpochId::new(p_u64(parts[0])?), p_u32(parts[1])?, p_u16(parts[2])?);
+            if c == 'N' { node_s(st.get_node(e, o, l)) } else { edge_s(st.get_edge(e, o, l)) }
+        }
+        'c' => b(st.contains_epoch(EpochId::new(p_u64(&q[1..])?))).into(),
+        'b' => match st.get_block(EpochId::new(p_u64(&q[1..])?)) {
+            None => "none".into(),
+            Some(blk) => format!("{},{},{}", blk.epoch().as_u64(), blk.node_count(), blk.edge_count()),
+        },
+        'k' if q == "k" => st.epoch_count().to_string(),
+        't' if q == "t" => st.total_size().to_string(),
+        's' if q == "s" => {
+            let s = st.stats();
+            format!(
+                "{},{},{},{},{},{}",
+                s.epoch_count,
+                s.total_nodes,
+                s.total_edges,
+                s.total_compressed_bytes,
+                s.total_uncompressed_bytes,
+                b(s.compression_ratio == 1.0)
+            )
+        }
+        _ => return None,
+    })
+}
+
+fn run_inner(toks: &[&str]) -> Option<String> {
+    match toks {
+        ["block", e, ns, es, qs] => {
+            let e = p_u64(e)?;
+            let ns = p_nodes(ns)?;
+            let es = p_edges(es)?;
+            // validate the queries before touching the code (a malformed query is `bad-op`)
+            let (blk, ni, ei) = CompressedEpochBlock::from_records(EpochId::new(e), ns, es);
+            let mut out = Vec::new();
+            for q in qs.split(',') {
+                out.push(block_query(&blk, &ni, &ei, q)?);
+            }
+            Some(out.join(";"))
+        }
+        ["enc", kind, r] => {
+            let f = p_fields(r)?;
+            let cfg = bincode::config::standard();
+            match *kind {
+                "n" => {
+                    let rec = node_of(&f)?;
+                    let bs = bincode::serde::encode_to_vec(&rec, cfg).ok()?;
+                    let back = bincode::serde::decode_from_slice::<NodeRecord, _>(&bs, cfg).ok().map(|x| x.0);
+                    Some(format!("{}|{}", hex(&bs), node_s(back)))
+                }
+                "e" => {
+                    let rec = edge_of(&f)?;
+                    let bs = bincode::serde::encode_to_vec(&rec, cfg).ok()?;
+                    let back = bincode::serde::decode_from_slice::<EdgeRecord, _>(&bs, cfg).ok().map(|x| x.0);
+                    Some(format!("{}|{}", hex(&bs), edge_s(back)))
+                }
+                _ => None,
+            }
+        }
+        ["dec", kind, h] => {
+            let bs = unhex(h)?;
+            let cfg = bincode::config::standard();
+            match *kind {
+                "n" => Some(node_s(bincode::serde::decode_from_slice::<NodeRecord, _>(&bs, cfg).ok().map(|x| x.0))),
+                "e" => Some(edge_s(bincode::serde::decode_from_slice::<EdgeRecord, _>(&bs, cfg).ok().map(|x| x.0))),
+                _ => None,
+            }
+        }
+        ["store", prog] => {
+            let st = EpochStore::new();
+            let mut out = Vec::new();
+            for q in prog.split('/') {
+                out.push(store_op(&st, q)?);
+            }
+            Some(out.join(";"))
+        }
+        _ => None,
+    }
+}
+
+pub fn run(toks: &[&str]) -> String {
+    let toks: Vec<String> = toks.iter().map(|s| s.to_string()).collect();
+    guarded(move || {
+        let t: Vec<&str> = toks.iter().map(|s| s.as_str()).collect();
+        run_inner(&t).unwrap_or_else(|| "bad-op".to_string())
+    })
+}
+
+// ───────────────────────── generate ─────────────────────────
+
+const U64_POOL: &[u64] = &[
+    0, 1, 2, 249, 250, 251, 252, 253, 254, 255, 256, 65534, 65535, 65536, 65537, 4294967294, 4294967295, 4294967296,
+    4294967297, 1 << 40, (1 << 63) - 1, 1 << 63, u64::MAX - 1, u64::MAX,
+];
+const U32_POOL: &[u64] = &[0, 1, 250, 251, 252, 253, 255, 256, 65535, 65536, 65537, 4294967294, 4294967295];
+const U16_POOL: &[u64] = &[0, 1, 2, 3, 250, 251, 252, 253, 254, 255, 256, 32768, 65534, 65535];
+
+fn val(r: &mut Rng, w: u32) -> u64 {
+    let pool = match w {
+        64 => U64_POOL,
+        32 => U32_POOL,
+        _ => U16_POOL,
+    };
+    match r.below(10) {
+        0..=3 => *r.pick(pool),
+        4..=6 => r.below(8),
+        _ => {
+            let x = r.next();
+            if w == 64 { x >> r.below(64) } else { (x >> r.below(w as u64)) & ((1u64 << w) - 1) }
+        }
+    }
+}
+
+const NODE_WS: [u32; 8] = [64, 64, 32, 16, 16, 16, 16, 32];
+const EDGE_WS: [u32; 8] = [64, 64, 64, 32, 32, 16, 16, 64];
+
+fn fields(r: &mut Rng, ws: &[u32; 8], key: u64) -> String {
+    let mut f: Vec<u64> = ws.iter().map(|w| val(r, *w)).collect();
+    // the record's own id field usually equals the key (the caller's convention), sometimes not
+    if !r.chance(1, 6) {
+        f[0] = key;
+    }
+    f.iter().map(|x| x.to_string()).collect::<Vec<_>>().join(".")
+}
+
+/// keys of one record list; returns (keys, has_duplicates)
+fn keys(r: &mut Rng, stats: &mut Stats) -> Vec<u64> {
+    let n = match r.below(12) {
+        0 => 0,
+        1 => 1,
+        2 => 2,
+        3..=6 => r.range(3, 8),
+        7..=9 => r.range(9, 20),
+        10 => r.range(21, 24),
+        _ => r.range(25, 70),
+    } as usize;
+    let mode = r.below(6);
+    let mut ks: Vec<u64> = Vec::new();
+    let base = match r.below(5) {
+        0 => 0,
+        1 => 240,
+        2 => 65530,
+        3 => 4294967290,
+        _ => u64::MAX - 80,
+    };
+    let mut seen = std::collections::HashSet::new();
+    let allow_dups = n <= 20 && r.chance(1, 4);
+    let mut guard = 0;
+    while ks.len() < n && guard < 10_000 {
+        guard += 1;
+        let k = match mode {
+            0 | 1 => base.wrapping_add(r.below(80)),
+            2 => *r.pick(U64_POOL),
+            3 => r.next() >> r.below(64),
+            _ => base.wrapping_add(r.below(3 * n as u64 + 2)),
+        };
+        let k = if base == u64::MAX - 80 && k < base && mode != 2 && mode != 3 { u64::MAX - r.below(80) } else { k };
+        if seen.contains(&k) && !allow_dups {
+            continue;
+        }
+        seen.insert(k);
+        ks.push(k);
+    }
+    if allow_dups && ks.len() >= 2 && r.chance(3, 4) {
+        // force at least one duplicate
+        let i = r.below(ks.len() as u64) as usize;
+        let j = r.below(ks.len() as u64) as usize;
+        ks[i] = ks[j];
+    }
+    match r.below(4) {
+        0 => ks.sort_unstable(),
+        1 => {
+            ks.sort_unstable();
+            ks.reverse();
+        }
+        _ => {}
+    }
+    let mut d = ks.clone();
+    d.sort_unstable();
+    d.dedup();
+    if d.len() != ks.len() {
+        stats.dup_lists += 1;
+    }
+    if ks.len() > 20 {
+        stats.big_lists += 1;
+    }
+    if ks.is_empty() {
+        stats.empty_lists += 1;
+    }
+    if ks.windows(2).any(|w| w[0] > w[1]) {
+        stats.unsorted_lists += 1;
+    }
+    ks
+}
+
+fn recs(r: &mut Rng, ws: &[u32; 8], ks: &[u64]) -> String {
+    if ks.is_empty() {
+        return "-".into();
+    }
+    ks.iter().map(|k| format!("{}:{}", k, fields(r, ws, *k))).collect::<Vec<_>>().join(",")
+}
+
+#[derive(Default)]
+struct Stats {
+    dup_lists: usize,
+    big_lists: usize,
+    empty_lists: usize,
+    unsorted_lists: usize,
+    block_lines: usize,
+    store_lines: usize,
+    enc_lines: usize,
+    dec_lines: usize,
+    malformed: usize,
+    q_present: usize,
+    q_absent: usize,
+    q_offset: usize,
+    refreeze: usize,
+    gc_ops: usize,
+}
+
+fn probe_ids(r: &mut Rng, ks: &[u64], stats: &mut Stats) -> Vec<u64> {
+    let mut v = Vec::new();
+    for k in ks.iter().take(12) {
+        v.push(*k);
+        stats.q_present += 1;
+    }
+    if ks.len() > 12 {
+        for _ in 0..4 {
+            v.push(*r.pick(ks));
+        }
+    }
+    for k in ks.iter().take(3) {
+        v.push(k.wrapping_add(1));
+        v.push(k.wrapping_sub(1));
+        stats.q_absent += 2;
+    }
+    v.push(0);
+    v.push(u64::MAX);
+    v.push(r.next() >> r.below(64));
+    if let (Some(mn), Some(mx)) = (ks.iter().min(), ks.iter().max()) {
+        v.push(mn.wrapping_sub(1));
+        v.push(mx.wrapping_add(1));
+        v.push(mn / 2 + mx / 2);
+    }
+    v
+}
+
+fn block_line(r: &mut Rng, stats: &mut Stats) -> String {
+    let nk = keys(r, stats);
+    let ek = keys(r, stats);
+    let ns = recs(r, &NODE_WS, &nk);
+    let es = recs(r, &EDGE_WS, &ek);
+    let mut qs: Vec<String> = vec!["c".into(), "h".into()];
+    if r.chance(1, 2) {
+        qs.push("x".into());
+    }
+    for id in probe_ids(r, &nk, stats) {
+        qs.push(format!("n{}", id));
+        if r.chance(1, 2) {
+            qs.push(format!("mn{}", id));
+        }
+    }
+    for id in probe_ids(r, &ek, stats) {
+        qs.push(format!("e{}", id));
+        if r.chance(1, 2) {
+            qs.push(format!("me{}", id));
+        }
+    }
+    for k in 0..nk.len().min(10) {
+        qs.push(format!("i{}", k));
+    }
+    if nk.len() > 10 {
+        qs.push(format!("i{}", nk.len() - 1));
+    }
+    qs.push(format!("i{}", nk.len()));
+    for k in 0..ek.len().min(10) {
+        qs.push(format!("j{}", k));
+    }
+    qs.push(format!("j{}", ek.len() + r.below(3) as usize));
+    // arbitrary (offset, length) reads: misaligned, too long, past the end
+    for _ in 0..4 {
+        let o = match r.below(4) {
+            0 => r.below(8),
+            1 => r.below(40 * (nk.len() as u64 + 1)),
+            2 => *r.pick(U32_POOL),
+            _ => r.below(200),
+        };
+        let l = match r.below(4) {
+            0 => r.below(12),
+            1 => r.below(45),
+            2 => *r.pick(U16_POOL),
+            _ => 8,
+        };
+        qs.push(format!("{}{}:{}", if r.chance(1, 2) { 'N' } else { 'E' }, o, l));
+        stats.q_offset += 1;
+    }
+    stats.block_lines += 1;
+    format!("epo block {} {} {} {}", val(r, 64), ns, es, qs.join(","))
+}
+
+fn store_line(r: &mut Rng, stats: &mut Stats) -> String {
+    let n_ops = r.range(2, 10);
+    let epochs: Vec<u64> = match r.below(4) {
+        0 => vec![0, 1, 2, 3],
+        1 => vec![u64::MAX, u64::MAX - 1, 0, 5],
+        2 => vec![7, 7, 8, 9],
+        _ => (0..4).map(|_| val(r, 64)).collect(),
+    };
+    let mut ops: Vec<String> = Vec::new();
+    let mut frozen: Vec<(u64, Vec<u64>, Vec<u64>)> = Vec::new();
+    for _ in 0..n_ops {
+        match r.below(10) {
+            0..=4 => {
+                let e = *r.pick(&epochs);
+                let mut nk = keys(r, stats);
+                nk.truncate(12);
+                let mut ek = keys(r, stats);
+                ek.truncate(8);
+                if frozen.iter().any(|f| f.0 == e) {
+                    stats.refreeze += 1;
+                }
+                ops.push(format!("F{}|{}|{}", e, recs(r, &NODE_WS, &nk), recs(r, &EDGE_WS, &ek)));
+                frozen.push((e, nk, ek));
+            }
+            5..=6 => {
+                let m = match r.below(4) {
+                    0 => *r.pick(&epochs),
+                    1 => r.pick(&epochs).wrapping_add(1),
+                    2 => 0,
+                    _ => u64::MAX,
+                };
+                ops.push(format!("G{}", m));
+                stats.gc_ops += 1;
+            }
+            _ => {}
+        }
+        // observations
+        ops.push("k".into());
+        if r.chance(1, 2) {
+            ops.push("t".into());
+        }
+        if r.chance(1, 2) {
+            ops.push("s".into());
+        }
+        let e = *r.pick(&epochs);
+        ops.push(format!("c{}", e));
+        ops.push(format!("b{}", e));
+        if let Some(f) = frozen.iter().rev().find(|f| r.0 % 3 != 0 || f.0 == e) {
+            let (fe, nk, ek) = f.clone();
+            for k in nk.iter().take(3) {
+                ops.push(format!("n{}:{}", fe, k));
+            }
+            for k in ek.iter().take(3) {
+                ops.push(format!("e{}:{}", fe, k));
+            }
+            ops.push(format!("n{}:{}", fe, val(r, 64)));
+            ops.push(format!("N{}:{}:{}", fe, r.below(60), r.below(45)));
+            ops.push(format!("E{}:{}:{}", fe, r.below(60), r.below(45)));
+        }
+    }
+    stats.store_lines += 1;
+    format!("epo store {}", ops.join("/"))
+}
+
+fn malformed(r: &mut Rng, stats: &mut Stats) -> String {
+    stats.malformed += 1;
+    match r.below(8) {
+        0 => "epo block 1 1:1.1.0.0.0.0.0 - c".into(),                      // 7 fields
+        1 => "epo block 1 1:1.1.0.65536.0.0.0.0 - c".into(),                 // u16 field out of range
+        2 => "epo block 1 - 1:1.1.1.4294967296.0.0.0.0 c".into(),            // u32 field out of range
+        3 => "epo block 18446744073709551616 - - c".into(),                  // epoch out of range
+        4 => "epo block 1 - - q".into(),                                     // unknown query
+        5 => "epo store F1|-".into(),
+        6 => "epo enc x 1.2.3.4.5.6.7.8".into(),
+        _ => "epo block 1 - - n18446744073709551616".into(),
+    }
+}
+
+fn dec_line(r: &mut Rng, stats: &mut Stats) -> String {
+    stats.dec_lines += 1;
+    // a valid encoding, then mutated: tag bytes swapped, truncated, extended
+    let ws = if r.chance(1, 2) { NODE_WS } else { EDGE_WS };
+    let kind = if ws == NODE_WS { "n" } else { "e" };
+    let mut bs: Vec<u8> = Vec::new();
+    for w in ws.iter() {
+        let v = val(r, *w);
+        let tag_mode = r.below(12);
+        if tag_mode == 0 {
+            // a deliberately wide (non-minimal or too wide) tag
+            let t = *r.pick(&[251u8, 252, 253, 254, 255]);
+            bs.push(t);
+            let k = match t {
+                251 => 2,
+                252 => 4,
+                253 => 8,
+                _ => 0,
+            };
+            bs.extend_from_slice(&v.to_le_bytes()[..k]);
+        } else if v < 251 {
+            bs.push(v as u8);
+        } else if v < 65536 {
+            bs.push(251);
+            bs.extend_from_slice(&(v as u16).to_le_bytes());
+        } else if v < 4294967296 {
+            bs.push(252);
+            bs.extend_from_slice(&(v as u32).to_le_bytes());
+        } else {
+            bs.push(253);
+            bs.extend_from_slice(&v.to_le_bytes());
+        }
+    }
+    match r.below(5) {
+        0 => {
+            let k = r.below(bs.len() as u64 + 1) as usize;
+            bs.truncate(k);
+        }
+        1 => bs.push(r.below(256) as u8),
+        _ => {}
+    }
+    format!("epo dec {} {}", kind, if bs.is_empty() { "-".to_string() } else { hex(&bs) })
+}
+
+pub fn generate(seed: u64, cases: usize, out: &mut Vec<String>) {
+    let mut r = Rng::new(seed ^ 0xE90C_57A7_0B10_C15E);
+    let mut stats = Stats::default();
+    out.push(format!("# case 0 seed {}", seed));
+    // fixed boundary lines
+    for l in [
+        "epo block 1 - - c,h,x,mn0,me0,n0,e0,mn18446744073709551615,me18446744073709551615,N0:0,E0:0,N0:1,i0,j0",
+        "epo block 1 1:1.1.0.0.0.0.0.0,2:2.1.0.0.0.0.0.0,3:3.1.0.0.0.0.0.0 10:10.1.2.0.0.0.0.1,20:20.2.3.0.0.0.0.1 c,h,x,n1,n2,n3,n0,n4,e10,e20,e15,i0,i1,i2,i3,j0,j1,j2,mn1,mn3,mn4,me10,me9",
+        // unsorted input
+        "epo block 7 10:10.7.0.0.0.0.0.0,5:5.7.0.0.0.0.0.0,1:1.7.0.0.0.0.0.0 200:200.5.10.0.0.0.0.7,100:100.1.5.0.0.0.0.7 x,n1,n5,n10,n2,e100,e200,e150,i0,i1,i2,j0,j1",
+        // duplicate ids: which record wins
+        "epo block 7 5:5.1.0.0.0.0.0.0,5:5.2.0.0.0.0.0.0,5:5.3.0.0.0.0.0.0,4:4.9.0.0.0.0.0.0 - c,x,n5,n4,i0,i1,i2,i3",
+        "epo block 7 - 9:9.1.1.0.0.0.0.1,3:3.1.1.0.0.0.0.2,9:9.1.1.0.0.0.0.3,9:9.1.1.0.0.0.0.4 c,x,e9,e3,j0,j1,j2,j3",
+        // extreme values in every field
+        "epo block 18446744073709551615 18446744073709551615:18446744073709551615.18446744073709551615.4294967295.65535.65535.65535.65535.4294967295,0:0.0.0.0.0.0.0.0 18446744073709551615:18446744073709551615.18446744073709551615.18446744073709551615.4294967295.4294967295.65535.65535.18446744073709551615,0:0.0.0.0.0.0.0.0 c,h,x,n0,n18446744073709551615,n1,n18446744073709551614,e0,e18446744073709551615,mn0,mn18446744073709551615,mn5,i0,i1,j0,j1,N0:8,N8:40,N8:39,N8:41,E0:8,E8:53,E8:52",
+        // key differs from the record's own id
+        "epo block 3 8:9.3.0.0.0.0.0.0,9:8.3.0.0.0.0.0.0 - n8,n9,i0,i1",
+        // varint thresholds
+        "epo enc n 250.251.65535.250.251.65535.0.65536",
+        "epo enc n 4294967295.4294967296.4294967295.65535.65535.65535.65535.4294967295",
+        "epo enc e 18446744073709551615.65536.65535.251.250.251.250.0",
+        "epo enc e 0.0.0.0.0.0.0.0",
+        // tags the typed decoder must refuse / accept
+        "epo dec n 0000fc00000000000000000000",
+        "epo dec n 000000fc0100000000000000",
+        "epo dec n 000000fb010000000000",
+        "epo dec n fd0100000000000000fe0000000000",
+        "epo dec n 00ff",
+        "epo dec n -",
+        "epo dec n 00000000000000",
+        "epo dec n 0000000000000000",
+        "epo dec n 000000000000000001",
+        "epo dec e fb0100fc01000000fd010000000000000000000000fd0000000000000080",
+        // store: freeze, read, gc
+        "epo store k/t/s/c1/b1/n1:1/G5/k",
+        "epo store F1|1:1.1.0.0.0.0.0.0,2:2.1.0.0.0.0.0.0|10:10.1.2.0.0.0.0.1/k/t/s/c1/b1/n1:1/n1:2/n1:3/e1:10/N1:0:3/E1:0:8/n2:1",
+        "epo store F1|1:1.1.0.0.0.0.0.0|-/F2|2:2.2.0.0.0.0.0.0|-/F3|3:3.3.0.0.0.0.0.0|-/k/G3/k/t/s/c1/c2/c3/n3:3/n1:1/G3/G4/k/t/s",
+        // the same epoch frozen twice: the block is replaced, the counters are bumped twice
+        "epo store F1|1:1.1.0.0.0.0.0.0|-/F1|2:2.1.0.0.0.0.0.0|-/k/t/s/n1:1/n1:2/b1/G2/k/t/s",
+        "epo store F0|-|-/F0|-|-/k/s/G0/k/G1/k/s",
+        "epo store F18446744073709551615|5:5.1.0.0.0.0.0.0|-/G18446744073709551615/k/c18446744073709551615/n18446744073709551615:5",
+    ] {
+        out.push(l.to_string());
+    }
+    for case in 0..cases {
+        out.push(format!("# case {} seed {}", case + 1, seed));
+        let l = match r.below(20) {
+            0..=10 => block_line(&mut r, &mut stats),
+            11..=15 => store_line(&mut r, &mut stats),
+            16 => {
+                stats.enc_lines += 1;
+                let ws = if r.chance(1, 2) { NODE_WS } else { EDGE_WS };
+                let k = val(&mut r, 64);
+                format!("epo enc {} {}", if ws == NODE_WS { "n" } else { "e" }, fields(&mut r, &ws, k))
+            }
+            17..=18 => dec_line(&mut r, &mut stats),
+            // (harness-level malformed lines are `bad-op` on both sides and rejected by check.py:
+            // the malformed share of this stream is the garbage-bytes `dec` op and the arbitrary
+            // (offset, length) reads)
+            _ => dec_line(&mut r, &mut stats),
+        };
+        out.push(l);
+    }
+    if std::env::var("VH_STATS").is_ok() {
+        eprintln!(
+            "epo: block={} store={} enc={} dec={} malformed={} | lists: empty={} dup={} >20={} unsorted={} | queries: present={} absent={} offset={} | store: refreeze={} gc={}",
+            stats.block_lines,
+            stats.store_lines,
+            stats.enc_lines,
+            stats.dec_lines,
+            stats.malformed,
+            stats.empty_lists,
+            stats.dup_lists,
+            stats.big_lists,
+            stats.unsorted_lists,
+            stats.q_present,
+            stats.q_absent,
+            stats.q_offset,
+            stats.refreeze,
+            stats.gc_ops
+        );
+    }
 }
